@@ -28,7 +28,19 @@ class Case:
         self.sig = sig
 
 
+OVERSIZE = 4_000_000      # no legitimate observation comes near this; such a case disagrees without asking Coq
+
+
 def evaluate(mod, cases, workdir):
+    oversize = [i for i, c in enumerate(cases) if len(c.term) > OVERSIZE]
+    if oversize:
+        keep = [i for i in range(len(cases)) if len(cases[i].term) <= OVERSIZE]
+        bad, nshards, secs = evaluate(mod, [cases[i] for i in keep], workdir)
+        bad = [(keep[i], s) for i, s in bad] + [(i, [0]) for i in oversize]
+        for i in oversize:
+            cases[i].subs = [{'observation': f'{len(cases[i].term)} characters: too large to be an answer to this input'}]
+            cases[i].term = cases[i].term[:2000] + ' ... (truncated)'
+        return sorted(bad), nshards, secs
     terms = [c.term for c in cases]
     kw = {}
     if hasattr(mod, 'SHARD_SIZE'):
@@ -36,6 +48,8 @@ def evaluate(mod, cases, workdir):
     if hasattr(mod, 'IMPORTS'):
         kw['imports'] = mod.IMPORTS
     bad, nshards, secs = common.run_shards(mod.RUN_MODULE, terms, workdir, **kw)
+    for idx, msg in common.UNPARSABLE:
+        cases[idx].subs = [{'observation is not a well-formed case for the model': msg}]
     return bad, nshards, secs
 
 
@@ -186,9 +200,12 @@ def run(prop, tier, seed):
         for line in known_printed:
             print(line)
         if violations:
+            printed = set()
             for payload, suffix in violations:
                 path = common.write_replay(prop, payload)
-                print(f'VIOLATION property={prop} replay={path}{suffix}')
+                if path not in printed:           # different cases may shrink to the same minimal input
+                    printed.add(path)
+                    print(f'VIOLATION property={prop} replay={path}{suffix}')
             return 1
         print(f'OK property={prop} tier={tier} cases={len(cases)} evaluations={coverage["evaluations"]} '
               f'obligations={discharged}/{obligations} wall={wall:.1f}s')
